@@ -657,6 +657,8 @@ func stateRules(c *Ctx) {
 		poolArrayMarks(c, g, short1)
 		atomicPair(c, g, short1)
 		predicateWritesArgument(c, g, short1)
+		// ---- two appends onto one cut of a longer list
+		appendFork(c, g, short1)
 	}
 	// parsers that link features to a local Sequence (shared by C01, C14, C15)
 	switch c.Prop {
@@ -3033,4 +3035,61 @@ func predicateWritesArgument(c *Ctx, g *ssa.Function, short1 string) {
 			}
 		}
 	})
+}
+
+// appendFork: two appends onto the SAME cut of a longer list (head := list[:k]; a := append(head, x);
+// b := append(head, y)): the cut has spare capacity, so both appends write position k of the one backing
+// array and the later one replaces what the earlier one added; a and b (and the list) now share that element.
+func appendFork(c *Ctx, g *ssa.Function, short1 string) {
+	byBase := map[ssa.Value][]*ssa.Call{}
+	eachInstr(g, func(i ssa.Instruction) {
+		ap, ok := i.(*ssa.Call)
+		if !ok || calleeName(ap) != "builtin:append" || len(ap.Call.Args) != 2 {
+			return
+		}
+		if ap.Referrers() == nil || len(*ap.Referrers()) == 0 {
+			return
+		}
+		byBase[ap.Call.Args[0]] = append(byBase[ap.Call.Args[0]], ap)
+	})
+	for base, aps := range byBase {
+		if len(aps) < 2 {
+			continue
+		}
+		sl, ok := base.(*ssa.Slice)
+		if !ok || sl.Max != nil || sl.High == nil {
+			continue
+		}
+		hi, isC := sl.High.(*ssa.Const)
+		if !isC || hi.Value == nil {
+			continue
+		}
+		// the list that is cut is longer than the cut: a literal of known length
+		var n int64 = -1
+		switch x := sl.X.(type) {
+		case *ssa.Slice:
+			if a, isA := x.X.(*ssa.Alloc); isA && x.High == nil {
+				if at, isArr := deref(a.Type()).Underlying().(*types.Array); isArr {
+					n = at.Len()
+				}
+			}
+		case *ssa.Alloc:
+			if at, isArr := deref(x.Type()).Underlying().(*types.Array); isArr {
+				n = at.Len()
+			}
+		}
+		if n < 0 || hi.Int64() >= n {
+			continue
+		}
+		// one append must not be on a path that excludes the other (if/else alternatives are fine)
+		a, b := aps[0], aps[1]
+		if !(domInstr(a, b) || domInstr(b, a)) {
+			continue
+		}
+		first := a
+		if b.Pos() < a.Pos() {
+			first = b
+		}
+		c.bad("STATE", "append-fork:"+short1, first.Pos(), fmt.Sprintf("%s appends twice onto the same %d-element cut of a %d-element list: the cut has room to spare, so both appends write the list's element %d and the later one replaces what the earlier one added (the two results, and the list, share it)", short1, hi.Int64(), n, hi.Int64()))
+	}
 }
